@@ -307,6 +307,8 @@ def run_pipeline(doc, root, stage=True):
         environment = yspec.get_study_environment()
         phase = "steps"
         steps = yspec.get_study_steps()
+        import copy
+        converted = [(s.real_name, s.description, copy.deepcopy(dict(s.run))) for s in steps]
         phase = "environment"
         environment.remove("OUTPUT_PATH")
         environment.add(Variable("OUTPUT_PATH", root))
@@ -316,7 +318,7 @@ def run_pipeline(doc, root, stage=True):
         phase = "study"
         study = Study(yspec.name, yspec.description, studyenv=environment, parameters=parameters,
                       steps=steps, out_path=root)
-        info = {"steps": [s for s in study.values if s != "_source"],
+        info = {"steps": [s for s in study.values if s != "_source"], "converted": converted,
                 "runs": {n: dict(study.values[n].run) for n in study.values if n != "_source"},
                 "edges": sorted((a, b) for a in study.adjacency_table for b in study.adjacency_table[a])}
         if stage:
